@@ -126,10 +126,16 @@ impl<'p> Evaluator<'_, 'p> {
                 self.array_stack.push(Vec::new());
                 self.state_stack.push(State::ArrayToValue);
 
-                for item in array.iter().rev() {
+                for (i, item) in array.iter().enumerate().rev() {
+                    // Count nesting so that endless structures hit the stack limit.
+                    self.push_trace_item(TraceItem::ArrayItem {
+                        span: None,
+                        index: i,
+                    });
                     self.state_stack.push(State::StdPruneArrayItem);
                     self.state_stack.push(State::StdPruneValue);
                     self.state_stack.push(State::DoThunk(item.view()));
+                    self.delay_trace_item();
                 }
             }
             ValueData::Object(object) => {
@@ -145,10 +151,15 @@ impl<'p> Evaluator<'_, 'p> {
                         .find_object_field_thunk(&object, 0, field_name)
                         .unwrap();
 
+                    self.push_trace_item(TraceItem::ObjectField {
+                        span: None,
+                        name: field_name,
+                    });
                     self.state_stack
                         .push(State::StdPruneObjectField { name: field_name });
                     self.state_stack.push(State::StdPruneValue);
                     self.state_stack.push(State::DoThunk(field_thunk));
+                    self.delay_trace_item();
                 }
 
                 self.check_object_asserts(&object);
